@@ -70,6 +70,18 @@ CHECKS = {
         "note": "Obstacle-shape convention (shapes centred at the origin); enclosure is checked on sampled admissible "
                 "(p, psi) only; tolerance 1e-9*(1+scale).",
     },
+    "C06": {
+        "technique": "property-based testing: Hypothesis-generated lanelet networks x construction routes x query "
+                     "points/shapes; differential oracle = brute-force scan with own point-in-polygon / intersection "
+                     "tests on raw vertices, with tolerance bands",
+        "text": "Thousands of networks per run (chains, neighbours sharing a boundary, crossing, far apart) built by 8 "
+                "routes incl. XML/protobuf round trips, deepcopy and pickle; lookups by position and by rectangle / "
+                "circle / polygon; each shape's contains_point vs its exported geometry; obstacle mapping functions. "
+                "One recorded finding (circle export at half radius) is attributed by signature and excluded so the "
+                "search continues. Exploration only.",
+        "note": "Band: boundary distance < 1e-9*scale; shape answers that flip under 1e-6 growth/shrink are don't-cares; "
+                "circles additionally 0.2 % (64-gon export).",
+    },
 }
 
 NOT_APPLICABLE = [{"property_id": p, "reason": "check not built yet (work in progress; will be claimed once its "
